@@ -27,6 +27,9 @@ def base_parts():
         '<Default Extension="xml" ContentType="application/xml"/>'
         '<Override PartName="/xl/workbook.xml" ContentType="application/vnd.openxmlformats-officedocument.spreadsheetml.sheet.main+xml"/>'
         '<Override PartName="/xl/worksheets/sheet1.xml" ContentType="application/vnd.openxmlformats-officedocument.spreadsheetml.worksheet+xml"/>'
+        '<Override PartName="/xl/worksheets/sheet2.xml" ContentType="application/vnd.openxmlformats-officedocument.spreadsheetml.worksheet+xml"/>'
+        '<Override PartName="/xl/styles.xml" ContentType="application/vnd.openxmlformats-officedocument.spreadsheetml.styles+xml"/>'
+        '<Override PartName="/xl/sharedStrings.xml" ContentType="application/vnd.openxmlformats-officedocument.spreadsheetml.sharedStrings+xml"/>'
         "</Types>",
         "_rels/.rels": '<Relationships xmlns="%s"><Relationship Id="rId1" Type="%s/officeDocument" Target="xl/workbook.xml"/></Relationships>' % (PR, RT),
         "xl/workbook.xml": '<workbook %s><sheets><sheet name="A &amp; B" sheetId="1" r:id="rId1"/><sheet name="Two" sheetId="2" state="hidden" r:id="rId2"/></sheets>'
@@ -154,9 +157,11 @@ def main():
         ("xml.not-well-formed", variant(rep("xl/worksheets/sheet2.xml", "<sheetData/>", "<sheetData>"))),
         ("xml.not-well-formed", variant(rep("xl/sharedStrings.xml", "plain", "pl\x01ain"))),
         ("xml.not-well-formed", variant(rep("xl/sharedStrings.xml", "plain", "pl&#1;ain"))),
-        ("ct.no-type", variant(rep("[Content_Types].xml", '<Default Extension="xml" ContentType="application/xml"/>', ""))),
+        ("ct.no-type", variant(lambda p: (rep("[Content_Types].xml", '<Default Extension="xml" ContentType="application/xml"/>', "")(p),
+                                           rep("[Content_Types].xml", '<Override PartName="/xl/worksheets/sheet2.xml" ContentType="application/vnd.openxmlformats-officedocument.spreadsheetml.worksheet+xml"/>', "")(p)))),
         ("ct.override-missing-part", variant(rep("[Content_Types].xml", "</Types>", '<Override PartName="/xl/comments1.xml" ContentType="x/y"/></Types>'))),
         ("ct.missing", variant(drop("[Content_Types].xml"))),
+        ("ct.wrong-type", variant(rep("[Content_Types].xml", '<Override PartName="/xl/styles.xml" ContentType="application/vnd.openxmlformats-officedocument.spreadsheetml.styles+xml"/>', ""))),
         ("rel.target-missing", variant(drop("xl/worksheets/sheet2.xml"))),
         ("rel.duplicate-id", variant(rep("xl/_rels/workbook.xml.rels", 'Id="rId4"', 'Id="rId3"'))),
         ("rel.unresolved-rid", variant(rep("xl/worksheets/sheet1.xml", '<hyperlink ref="A1" r:id="rId1"', '<hyperlink ref="A1" r:id="rId9"'))),
@@ -201,6 +206,8 @@ def main():
     tbl = '<table %s id="%d" name="%s" displayName="%s" ref="A20:B21"><tableColumns count="2"><tableColumn id="1" name="a&amp;b"/><tableColumn id="2" name="c"/></tableColumns></table>'
     tparts["xl/tables/table1.xml"] = tbl % (NS, 1, "T1", "T1")
     tparts["xl/tables/table2.xml"] = tbl % (NS, 2, "T2", "T2")
+    tparts["[Content_Types].xml"] = tparts["[Content_Types].xml"].replace("</Types>", "".join(
+        '<Override PartName="/xl/tables/table%d.xml" ContentType="application/vnd.openxmlformats-officedocument.spreadsheetml.table+xml"/>' % i for i in (1, 2)) + "</Types>")
     expect(rules(pack(tparts)) == [], "valid tables rejected: %r" % od.validate(pack(tparts)))
     expect(od.decode(pack(tparts))["sheets"][0]["tables"][0]["columns"] == ["a&b", "c"], "table columns")
     bad = dict(tparts)
